@@ -84,3 +84,8 @@ CORPUS += [
     M("connect-not-awaited", L, "        if not self._alive:\n            self._disconnect()\n            await self._connect()", "        if not self._alive:\n            self._disconnect()\n            self._connect()"),
     M("n-connect-awaited-via-name", L, "        if not self._alive:\n            self._disconnect()\n            await self._connect()", "        if not self._alive:\n            self._disconnect()\n            pending = self._connect()\n            await pending", "S"),
 ]
+# round 7 (C08.d): a handshake is offered on a connection found alive and V3, or on a fresh one
+CORPUS += [
+    M("authenticate-reconnect-guard-wrong", L, "        if (not self._alive or not isinstance(self._protocol, _LanProtocolV3)):", "        if (not self._alive or isinstance(self._protocol, _LanProtocolV3)):"),
+    M("authenticate-never-reconnects", L, "        if (not self._alive or not isinstance(self._protocol, _LanProtocolV3)):", "        if not isinstance(self._protocol, _LanProtocolV3):"),
+]
